@@ -10,7 +10,7 @@
 (*  "floats"  every exponent field of f32 / f64 x fraction class x sign     *)
 (*  "round"   every shift 1..38 x head class x remainder class x sign x scale *)
 (*  "operands" every boundary-class operand x every scale 0..18 (unary operations) *)
-(*  "ints"    d * 10^k for every d <= NMax, k <= 37, written with f <= min(k, 18) digits *)
+(*  "ints"    d * 10^k for every d <= NMax, k <= 37, read with f <= 18 digits (integral iff k >= f: trailing zeros both ways) *)
 (*  "forms"   operation x integer type x operand position x Decimal class x integer class (C17: every macro-stamped impl) *)
 EXTENDS BigInt, TLC, Json
 CONSTANTS Kind, NMax, DMax, LMax, ScaleSet
@@ -21,6 +21,8 @@ YSmall == {1, 2, 3, 4, 5, 6, 7, 8, 9, 10, 12, 20, 25, 40}
 Alphabet == << <<48>>, <<49>>, <<53>>, <<57>>, <<46>>, <<101>>, <<69>>, <<43>>, <<45>>, <<32>>, <<120>>, <<95>>, <<195, 169>> >>
 (* ---- bounds: coefficient classes ---- *)
 MAXC == BSub(BPow2(127), BLit(1))
+RECURSIVE Pow5B(_)
+Pow5B(k) == IF k = 0 THEN BLit(1) ELSE BMul(BLit(5), Pow5B(k - 1))
 Tens == {1, 2, 9, 17, 18, 19, 20, 36, 37, 38}
 Classes ==
   {Z0, BLit(1), BLit(2), BLit(5), BLit(10), MAXC, BSub(MAXC, BLit(1)), BPow2(64), BSub(BPow2(64), BLit(1)), BPow2(126), BPow2(63),
@@ -30,6 +32,10 @@ Classes ==
   \* word-size boundaries of 64-bit fast paths and values that alias a special value in their low 64 bits
   \cup {BAdd(BPow2(63), BLit(d)) : d \in {-1, 1}} \cup {BAdd(BPow2(64), BLit(1)), BAdd(BPow2(64), BPow10(1)), BAdd(BPow2(64), BPow10(18)),
         BMul(BLit(3), BPow2(65)), BMul(BLit(5), BPow2(70)), BPow2(96), BMul(BLit(95), BPow10(17)), BMul(BLit(923), BPow10(16))}
+  \* odd multiples of high powers of five (dyadic fractions q / 2^j stored without trailing zeros)
+  \cup {Pow5B(16), Pow5B(17), Pow5B(18), BMul(BLit(3), Pow5B(16)), BMul(BLit(7), Pow5B(18)), Pow5B(27), Pow5B(54)}
+  \* the largest integral value representable with k fractional digits: floor(MAX / 10^k) * 10^k
+  \cup {BMul(BFloorDivMod(MAXC, BPow10(k))[1], BPow10(k)) : k \in {1, 2, 3, 9, 17, 18}}
 Signed == Classes \cup {BNeg(c) : c \in Classes}
 
 VARIABLES a, b, out
@@ -57,7 +63,7 @@ Next ==
     [] Kind = "round" -> out = "-" /\ \E hc \in 0..3, rc \in 0..5, sg \in {-1, 1}, f \in ScaleSet :
                            out' = ToJson(<<a, hc, rc, sg, f>>) /\ UNCHANGED <<a, b>>
     [] Kind = "operands" -> out = "-" /\ \E f \in 0..18 : out' = ToJson([s |-> a.s, m |-> a.m, f |-> f]) /\ UNCHANGED <<a, b>>
-    [] Kind = "ints" -> out = "-" /\ \E k \in 0..37, f \in 0..18, sg \in {-1, 1} : f <= k /\ out' = ToJson(<<a, k, f, sg>>) /\ UNCHANGED <<a, b>>
+    [] Kind = "ints" -> out = "-" /\ \E k \in 0..37, f \in 0..18, sg \in {-1, 1} : out' = ToJson(<<a, k, f, sg>>) /\ UNCHANGED <<a, b>>
     [] Kind = "forms" -> out = "-" /\ \E ty \in 0..9, pos \in 0..1, xi \in 1..NMax, ii \in 1..DMax :
                            out' = ToJson(<<a, ty, pos, xi, ii>>) /\ UNCHANGED <<a, b>>
 Spec == Init /\ [][Next]_vars
